@@ -632,7 +632,11 @@ def normalise(program):
             skipped.append("folding %s: %s" % (f.qualname, type(e).__name__))
     for f in program.all_funcs():
         try:
-            stats["propagated_uses"] += inline.propagate_paths(f)
+            k_ = inline.propagate_paths(f)
+            stats["propagated_uses"] += k_
+            if k_:
+                # what the propagation uncovered (`pos += n` with n = E - pos) is put into the plain form as well
+                stats["assignments_simplified"] += inline.simplify_assignments(f.node)
         except Exception as e:
             skipped.append("paths %s: %s" % (f.qualname, type(e).__name__))
             continue
